@@ -383,4 +383,5 @@ var (
 	errENOTEM = syscall.ENOTEMPTY
 	errEINVAL = syscall.EINVAL
 	errENOTDI = syscall.ENOTDIR
+	errEIO    = syscall.EIO
 )
